@@ -1,44 +1,115 @@
 /-
-C14 — helper lemmas about the model (Kap/Model/C14.lean).
+C14 — helper lemmas about the model (Kap/Model/C14.lean), part 1: the view of a world (what a client can see or
+later requests depend on), closed forms of every primitive step on the view, rejected requests, starting tasks,
+process start.
 -/
 import Kap.Spec.C14
 namespace Kap.C14
 
-/-! ### projections of the primitive steps -/
+/-! ### the view -/
+
+/-- Tasks, templates, associations and the executing set: everything later behaviour depends on, except the two
+enumeration lists `tids` / `mids`. -/
+structure View where
+  tasks : String → Option Task
+  tmpls : String → Option String
+  assoc : String → String → Bool
+  exec : String → Bool
+
+def World.view (w : World) : View := ⟨w.store.tasks, w.store.tmpls, w.store.assoc, w.exec⟩
+
+def View.put (V : View) (id : String) (t : Task) : View := { V with tasks := fun i => if i = id then some t else V.tasks i }
+def View.del (V : View) (id : String) : View := { V with tasks := fun i => if i = id then none else V.tasks i }
+def View.putTmpl (V : View) (id s : String) : View := { V with tmpls := fun i => if i = id then some s else V.tmpls i }
+def View.delTmpl (V : View) (id : String) : View :=
+  { V with tmpls := fun i => if i = id then none else V.tmpls i, assoc := fun m k => if m = id then false else V.assoc m k }
+def View.setAssoc (V : View) (m k : String) (b : Bool) : View :=
+  { V with assoc := fun m' k' => if m' = m ∧ k' = k then b else V.assoc m' k' }
+def View.setExec (V : View) (id : String) (b : Bool) : View := { V with exec := fun i => if i = id then b else V.exec i }
+
+@[simp] theorem view_tasks (w : World) : w.view.tasks = w.store.tasks := rfl
+@[simp] theorem view_tmpls (w : World) : w.view.tmpls = w.store.tmpls := rfl
+@[simp] theorem view_assoc (w : World) : w.view.assoc = w.store.assoc := rfl
+@[simp] theorem view_exec (w : World) : w.view.exec = w.exec := rfl
 
 @[simp] theorem note_store (w : World) (b : String) : (w.note b).store = w.store := by
   unfold World.note; split <;> rfl
 @[simp] theorem note_exec (w : World) (b : String) : (w.note b).exec = w.exec := by
   unfold World.note; split <;> rfl
+@[simp] theorem note_view (w : World) (b : String) : (w.note b).view = w.view := by
+  unfold World.note; split <;> rfl
 @[simp] theorem tx_exec (w : World) (f : Store → Store) : (w.tx f).exec = w.exec := rfl
 @[simp] theorem tx_store (w : World) (f : Store → Store) : (w.tx f).store = f w.store := rfl
+@[simp] theorem tx_id_view (w : World) : (w.tx (fun s => s)).view = w.view := rfl
 @[simp] theorem setExec_store (w : World) (i : String) (b : Bool) : (w.setExec i b).store = w.store := rfl
-@[simp] theorem setExec_exec (w : World) (i : String) (b : Bool) :
-    (w.setExec i b).exec = fun j => if j = i then b else w.exec j := rfl
+@[simp] theorem setExec_view (w : World) (i : String) (b : Bool) : (w.setExec i b).view = w.view.setExec i b := rfl
+@[simp] theorem stopTask_view (w : World) (i : String) : (stopTask w i).view = w.view.setExec i false := rfl
+@[simp] theorem stopTask_store (w : World) (i : String) : (stopTask w i).store = w.store := rfl
 
-/-- The data a client can see or that later requests depend on: tasks, templates, associations, executing set. -/
-structure Same (w w' : World) : Prop where
-  tasks : w'.store.tasks = w.store.tasks
-  tmpls : w'.store.tmpls = w.store.tmpls
-  assoc : w'.store.assoc = w.store.assoc
-  exec : w'.exec = w.exec
+theorem tasksCreate_view (w : World) (id : String) (t : Task) :
+    (tasksCreate w id t).1.view = if (w.store.tasks id).isSome then w.view else w.view.put id t := by
+  unfold tasksCreate; split <;> rfl
+theorem tasksCreate_ok (w : World) (id : String) (t : Task) : (tasksCreate w id t).2 = !(w.store.tasks id).isSome := by
+  unfold tasksCreate; split <;> simp_all
+theorem tasksReplace_view (w : World) (id : String) (t : Task) :
+    (tasksReplace w id t).1.view = if (w.store.tasks id).isSome then w.view.put id t else w.view := by
+  unfold tasksReplace; split <;> rfl
+theorem tasksReplace_ok (w : World) (id : String) (t : Task) : (tasksReplace w id t).2 = (w.store.tasks id).isSome := by
+  unfold tasksReplace; split <;> simp_all
+@[simp] theorem tasksDelete_view (w : World) (id : String) : (tasksDelete w id).view = w.view.del id := rfl
+theorem tmplCreate_view (w : World) (id s : String) :
+    (tmplCreate w id s).1.view = if (w.store.tmpls id).isSome then w.view else w.view.putTmpl id s := by
+  unfold tmplCreate; split <;> rfl
+theorem tmplCreate_ok (w : World) (id s : String) : (tmplCreate w id s).2 = !(w.store.tmpls id).isSome := by
+  unfold tmplCreate; split <;> simp_all
+theorem tmplReplace_view (w : World) (id s : String) :
+    (tmplReplace w id s).1.view = if (w.store.tmpls id).isSome then w.view.putTmpl id s else w.view := by
+  unfold tmplReplace; split <;> rfl
+theorem tmplReplace_ok (w : World) (id s : String) : (tmplReplace w id s).2 = (w.store.tmpls id).isSome := by
+  unfold tmplReplace; split <;> simp_all
+@[simp] theorem tmplDelete_view (w : World) (id : String) : (tmplDelete w id).view = w.view.delTmpl id := rfl
+@[simp] theorem associate_view (w : World) (m k : String) : (associate w m k).view = w.view.setAssoc m k true := rfl
+@[simp] theorem disassociate_view (w : World) (m k : String) : (disassociate w m k).view = w.view.setAssoc m k false := rfl
+@[simp] theorem saveLastError_store (w : World) (id : String) : (saveLastError w id).store = w.store := by
+  unfold saveLastError; split <;> rfl
+@[simp] theorem saveLastError_exec (w : World) (id : String) : (saveLastError w id).exec = w.exec := by
+  unfold saveLastError; split <;> rfl
+@[simp] theorem saveLastError_view (w : World) (id : String) : (saveLastError w id).view = w.view := by
+  unfold saveLastError; split <;> rfl
 
-theorem Same.refl (w : World) : Same w w := ⟨rfl, rfl, rfl, rfl⟩
-theorem Same.note {w w' : World} (h : Same w w') (b : String) : Same w (w'.note b) :=
-  ⟨by simp [h.tasks], by simp [h.tmpls], by simp [h.assoc], by simp [h.exec]⟩
+/-! ### starting tasks -/
 
-/-- Same without the association table (what the snapshot revision preserves on rejection). -/
-structure SameVisible (w w' : World) : Prop where
-  tasks : w'.store.tasks = w.store.tasks
-  tmpls : w'.store.tmpls = w.store.tmpls
-  exec : w'.exec = w.exec
+theorem startTask_ok (env : Env) (fail : List String) (w : World) (id : String) (t : Task) :
+    (startTask env fail w id t).2 = startOK env fail id t := by
+  unfold startTask startOK; split
+  · simp_all
+  · split <;> simp_all
+
+theorem startTask_view (env : Env) (fail : List String) (w : World) (id : String) (t : Task) :
+    (startTask env fail w id t).1.view = if startOK env fail id t then w.view.setExec id true else w.view := by
+  unfold startTask startOK; split
+  · simp_all
+  · split <;> simp_all
+
+theorem startTask_store (env : Env) (fail : List String) (w : World) (id : String) (t : Task) :
+    (startTask env fail w id t).1.store = w.store := by
+  unfold startTask; split
+  · simp
+  · split <;> simp
+
+theorem startTask_exec (env : Env) (fail : List String) (w : World) (id : String) (t : Task) :
+    (startTask env fail w id t).1.exec = fun j => if j = id then (startOK env fail id t || w.exec j) else w.exec j := by
+  have h := congrArg View.exec (startTask_view env fail w id t)
+  rw [view_exec] at h
+  rw [h]
+  cases hs : startOK env fail id t <;> simp [View.setExec]
 
 /-! ### rejected requests -/
 
 /-- "If the answer is a client error (400/404), nothing changed." -/
-def Rej (w : World) (x : World × Resp) : Prop := (x.2 = .bad ∨ x.2 = .nf) → Same w x.1
+def Rej (w : World) (x : World × Resp) : Prop := (x.2 = .bad ∨ x.2 = .nf) → x.1.view = w.view
 
-theorem rej_same (w : World) (b : String) (r : Resp) : Rej w (w.note b, r) := fun _ => (Same.refl w).note b
+theorem rej_same (w : World) (b : String) (r : Resp) : Rej w (w.note b, r) := fun _ => note_view w b
 theorem rej_ok (w w' : World) : Rej w (w', .ok) := fun h => by simp at h
 theorem rej_fail (w w' : World) : Rej w (w', .fail) := fun h => by simp at h
 theorem rej_okfail (w w' : World) (b : Bool) : Rej w (w', if b = true then .ok else .fail) := fun h => by
@@ -58,27 +129,49 @@ macro "rej_walk" : tactic => `(tactic|
     | (apply rej_ite <;> intro _)
     | split)
 
+theorem applyStatus_resp (env : Env) (fail : List String) (w : World) (id newId : String) (orig upd : Task) :
+    (applyStatus env fail w id newId orig upd).2 = .ok ∨ (applyStatus env fail w id newId orig upd).2 = .fail := by
+  unfold applyStatus; repeat' split
+  all_goals simp
+
+theorem createCommit_resp (v : Variant) (env : Env) (fail : List String) (w : World) (id : String) (t : Task) (b : Bool) :
+    (createCommit v env fail w id t b).2 = .ok ∨ (createCommit v env fail w id t b).2 = .fail := by
+  unfold createCommit; dsimp only; repeat' split
+  all_goals simp
+
+theorem updateCommit_resp (v : Variant) (env : Env) (fail : List String) (w : World) (id newId : String)
+    (orig upd : Task) (b : Bool) :
+    (updateCommit v env fail w id newId orig upd b).2 = .ok ∨ (updateCommit v env fail w id newId orig upd b).2 = .fail := by
+  unfold updateCommit; dsimp only; repeat' split
+  all_goals first
+    | exact applyStatus_resp ..
+    | simp
+
+theorem rej_of_okfail {w : World} {x : World × Resp} (h : x.2 = .ok ∨ x.2 = .fail) : Rej w x := fun h' => by
+  rcases h with h | h <;> rcases h' with h' | h' <;> rw [h] at h' <;> cases h'
+
 theorem createTask_rejected (env : Env) (fail : List String) (w : World) (id : String) (r : TaskReq) :
     Rej w (createTask Variant.fixed env fail w id r) := by
   unfold createTask
   simp only [Variant.fixed, Bool.and_false, Bool.false_eq_true, if_false]
-  rej_walk
+  repeat' first
+    | exact rej_same _ _ _
+    | exact rej_of_okfail (createCommit_resp ..)
+    | (apply rej_ite <;> intro _)
+    | split
 
 theorem updateTask_rejected (env : Env) (fail : List String) (w : World) (id : String) (r : TaskReq) :
     Rej w (updateTask Variant.fixed env fail w id r) := by
   unfold updateTask
   simp only [Variant.fixed, Bool.and_false, Bool.false_eq_true, if_false]
-  rej_walk
+  repeat' first
+    | exact rej_same _ _ _
+    | exact rej_of_okfail (updateCommit_resp ..)
+    | (apply rej_ite <;> intro _)
+    | split
 
 theorem deleteTask_ok (w : World) (id : String) : (deleteTask w id).2 = .ok := by
-  unfold deleteTask
-  dsimp only
-  split <;> rfl
-
-theorem deleteTask_rejected (w : World) (id : String) : Rej w (deleteTask w id) := by
-  intro h
-  rw [deleteTask_ok] at h
-  simp at h
+  unfold deleteTask; split <;> rfl
 
 theorem createTemplate_rejected (env : Env) (w : World) (id s : String) : Rej w (createTemplate env w id s) := by
   unfold createTemplate
@@ -94,47 +187,21 @@ theorem handle_rejected (env : Env) (fail : List String) (w : World) (op : Op) :
   cases op <;> simp only [handle]
   · exact createTask_rejected env fail w _ _
   · exact updateTask_rejected env fail w _ _
-  · exact deleteTask_rejected w _
+  · exact rej_of_okfail (Or.inl (deleteTask_ok w _))
   · exact createTemplate_rejected env w _ _
   · exact updateTemplate_rejected env fail w _ _ _
   · exact rej_ok _ _
   · exact rej_ok _ _
 
-/-! ### starting tasks, Open -/
+/-! ### process start -/
 
-@[simp] theorem saveLastError_store (w : World) (id : String) : (saveLastError w id).store = w.store := by
-  unfold saveLastError; split <;> rfl
-@[simp] theorem saveLastError_exec (w : World) (id : String) : (saveLastError w id).exec = w.exec := by
-  unfold saveLastError; split <;> rfl
+/-- Every stored task is enumerated by the ID index. -/
+def Dom (s : Store) : Prop := ∀ i t, s.tasks i = some t → i ∈ s.tids
 
-theorem startTask_store (env : Env) (fail : List String) (w : World) (t : Task) :
-    (startTask env fail w t).1.store = w.store := by
-  unfold startTask; split
-  · simp
-  · dsimp only; split <;> simp
-
-theorem startTask_ok (env : Env) (fail : List String) (w : World) (t : Task) :
-    (startTask env fail w t).2 = startOK env fail t := by
-  unfold startTask startOK; split
-  · simp_all
-  · dsimp only; split <;> simp_all
-
-theorem startTask_exec (env : Env) (fail : List String) (w : World) (t : Task) :
-    (startTask env fail w t).1.exec = fun j => if j = t.id then (startOK env fail t || w.exec j) else w.exec j := by
-  unfold startTask startOK; split
-  · funext j; simp_all
-  · dsimp only; split
-    · funext j; simp_all
-    · funext j; simp_all
-
-/-- Key consistency and enumeration of the task table. -/
-def Dom (s : Store) : Prop := ∀ i t, s.tasks i = some t → i ∈ s.tids ∧ t.id = i
-
-theorem openAll_spec (env : Env) (fail : List String) (l : List String) (w : World)
-    (hid : ∀ i t, w.store.tasks i = some t → t.id = i) :
+theorem openAll_spec (env : Env) (fail : List String) (l : List String) (w : World) :
     (openAll env fail w l).store = w.store ∧
     ∀ i, (openAll env fail w l).exec i = true ↔
-      (w.exec i = true ∨ (i ∈ l ∧ ∃ t, w.store.tasks i = some t ∧ t.enabled = true ∧ startOK env fail t = true)) := by
+      (w.exec i = true ∨ (i ∈ l ∧ ∃ t, w.store.tasks i = some t ∧ t.enabled = true ∧ startOK env fail i t = true)) := by
   induction l generalizing w with
   | nil => simp [openAll]
   | cons k rest ih =>
@@ -143,107 +210,40 @@ theorem openAll_spec (env : Env) (fail : List String) (l : List String) (w : Wor
     · rename_i t ht
       split
       · rename_i hen
-        have hs := startTask_store env fail w t
-        have := ih (startTask env fail w t).1 (by rw [hs]; exact hid)
+        have hs := startTask_store env fail w k t
+        have := ih (startTask env fail w k t).1
         rw [hs] at this
         refine ⟨this.1, fun i => ?_⟩
         rw [this.2 i, startTask_exec]
-        have hk := hid k t ht
         by_cases hik : i = k
-        · subst hik; simp [hk, ht, hen]; grind
-        · have : i ≠ t.id := by rw [hk]; exact hik
-          simp [this, hik]
+        · subst hik; simp [ht, hen]; grind
+        · simp [hik]
       · rename_i hen
-        have := ih w hid
+        have := ih w
         refine ⟨this.1, fun i => ?_⟩
         rw [this.2 i]
         by_cases hik : i = k
         · subst hik; simp [ht]; grind
         · simp [hik]
     · rename_i ht
-      have := ih w hid
+      have := ih w
       refine ⟨this.1, fun i => ?_⟩
       rw [this.2 i]
       by_cases hik : i = k
       · subst hik; simp [ht]
       · simp [hik]
 
-/-! ### the running-state invariant -/
-
-/-- Every stored task sits under its own ID. -/
-def IdInv (s : Store) : Prop := ∀ i t, s.tasks i = some t → t.id = i
-/-- Whatever TaskMaster executes is a stored, enabled task. -/
-def ExecInv (w : World) : Prop := ∀ i, w.exec i = true → ∃ t, w.store.tasks i = some t ∧ t.enabled = true
-def Inv (w : World) : Prop := IdInv w.store ∧ ExecInv w
-
-theorem ite_app {α β : Type} (c : Prop) [Decidable c] (f g : α → β) (a : α) :
-    (if c then f else g) a = if c then f a else g a := by split <;> rfl
-
-macro "inv_leaf" : tactic => `(tactic|
-  (constructor
-   · intro i t'
-     simp only [tasksDelete, tasksCreate, tasksReplace, Store.delTask, Store.putTask, tx_store, tx_exec, note_store, note_exec,
-       stopTask, setExec_store, setExec_exec, disassociate, associate, Store.setAssoc, reassociate, saveLastError_store,
-       saveLastError_exec, startTask_store, startTask_exec, apply_ite World.store, apply_ite World.exec, apply_ite Store.tasks,
-       World.tx, ite_self, ite_app] at *
-     grind
-   · intro i
-     simp only [tasksDelete, tasksCreate, tasksReplace, Store.delTask, Store.putTask, tx_store, tx_exec, note_store, note_exec,
-       stopTask, setExec_store, setExec_exec, disassociate, associate, Store.setAssoc, reassociate, saveLastError_store,
-       saveLastError_exec, startTask_store, startTask_exec, apply_ite World.store, apply_ite World.exec, apply_ite Store.tasks,
-       World.tx, ite_self, ite_app] at *
-     grind))
-
-theorem deleteTask_inv (w : World) (id : String) (h : Inv w) : Inv (deleteTask w id).1 := by
-  obtain ⟨hid, hex⟩ := h
-  unfold IdInv at hid
-  unfold ExecInv at hex
-  unfold deleteTask
-  dsimp only
-  split
-  all_goals inv_leaf
-
-/-- After a delete the ID is neither stored nor — given the invariant — executing. -/
-theorem deleteTask_gone (w : World) (id : String) (h : Inv w) :
-    (deleteTask w id).1.store.tasks id = none ∧ (deleteTask w id).1.exec id = false := by
-  have hinv := deleteTask_inv w id h
-  have hnone : (deleteTask w id).1.store.tasks id = none := by
-    unfold deleteTask
-    dsimp only
-    split
-    · simp_all
-    · simp [tasksDelete, Store.delTask]
-  refine ⟨hnone, ?_⟩
-  cases hx : (deleteTask w id).1.exec id
-  · rfl
-  · obtain ⟨t, ht, _⟩ := hinv.2 id hx
-    rw [hnone] at ht
-    cases ht
-
-/-- A process start on a file with consistent keys: nothing stored changes, and exactly the enabled tasks whose
-start the oracle lets succeed are executing. -/
-theorem boot_spec (env : Env) (fail : List String) (s : Store) (br : List String) (h : Dom s) :
+/-- A process start: nothing stored changes; exactly the enabled, enumerated tasks whose start the oracle lets
+succeed are executing. -/
+theorem boot_spec (env : Env) (fail : List String) (s : Store) (br : List String) :
     (boot env fail s br).store = s ∧
-    ∀ i, (boot env fail s br).exec i = true ↔ ∃ t, s.tasks i = some t ∧ t.enabled = true ∧ startOK env fail t = true := by
+    ∀ i, (boot env fail s br).exec i = true ↔
+      (i ∈ s.tids ∧ ∃ t, s.tasks i = some t ∧ t.enabled = true ∧ startOK env fail i t = true) := by
   unfold boot
-  have := openAll_spec env fail s.tids { store := s, br := br } (fun i t ht => (h i t ht).2)
+  have := openAll_spec env fail s.tids { store := s, br := br }
   refine ⟨this.1, fun i => ?_⟩
   rw [this.2 i]
-  constructor
-  · rintro (h0 | ⟨_, t, ht, he, hs⟩)
-    · simp at h0
-    · exact ⟨t, ht, he, hs⟩
-  · rintro ⟨t, ht, he, hs⟩
-    exact Or.inr ⟨(h i t ht).1, t, ht, he, hs⟩
-
-theorem boot_inv (env : Env) (fail : List String) (s : Store) (br : List String) (h : Dom s) :
-    Inv (boot env fail s br) := by
-  obtain ⟨hs, he⟩ := boot_spec env fail s br h
-  constructor
-  · rw [hs]; exact fun i t ht => (h i t ht).2
-  · intro i hi
-    obtain ⟨t, ht, hen, _⟩ := (he i).mp hi
-    exact ⟨t, by rw [hs]; exact ht, hen⟩
+  simp
 
 /-! ### histories (used by the witnesses in Props) -/
 
@@ -262,6 +262,5 @@ structure Req where
 
 def run (v : Variant) (env : Env) (reqs : List Req) : World :=
   reqs.foldl (fun w r => (step v env r.fail r.cut w r.op).1) {}
-
 
 end Kap.C14
